@@ -101,16 +101,24 @@ def rule_wrap(ctx):
     anchor(len(loops) == 1, 'open boundary: one loop over particles')
     loop = loops[0]
     tests = set()
+    lv_ = None
+    for d_ in walk(loop['inner'][0] or {}):
+        if d_.get('kind') == 'VarDecl':
+            lv_ = d_['name']
+    anchor(lv_ is not None, 'loop variable of the open-boundary loop')
+    flags = set()
     for ifs in walk(loop):
         if ifs.get('kind') == 'IfStmt':
             c = render(ifs['inner'][0]).replace(' ', '')
-            m = re.match(r'^\(particles\[i\]\.([xyz])([<>])\(?(-?)\(?boxsize\.([xyz])/2(?:\.0?)?\)*$', c)
-            if m:
+            m = re.match(r'^\((?:r\.)?particles\[(\w+)\]\.([xyz])([<>])\(?(-?)\(?(?:r\.)?boxsize\.([xyz])/2(?:\.0?)?\)*$', c)
+            if m and m.group(1) == lv_:
                 n += 1
-                comp, op, neg, bcomp = m.groups()
-                sets = [render(e['inner'][1]) for e in walk(ifs['inner'][1]) if is_assign(e) and render(e['inner'][0]) == 'removep']
+                _, comp, op, neg, bcomp = m.groups()
+                asg = [(render(e['inner'][0]), render(e['inner'][1])) for e in walk(ifs['inner'][1]) if is_assign(e) and strip(e['inner'][0]).get('kind') == 'DeclRefExpr']
+                sets = [v_ for _, v_ in asg]
+                flags |= {k_ for k_, _ in asg}
                 where = 'src/boundary.c:%s reb_boundary_check (OPEN)' % line_of(ifs)
-                if comp != bcomp or (op == '>') == bool(neg) or sets != ['1']:
+                if comp != bcomp or (op == '>') == bool(neg) or sets != ['1'] or len(flags) != 1:
                     ctx.report('R15.1', 'open:%s%s' % (comp, op), where, 'the outside test %s does not mark exactly the particles beyond the %s face of the box in %s' % (c, 'upper' if op == '>' else 'lower', comp))
                 tests.add((comp, op))
     for comp in AX:
@@ -119,8 +127,8 @@ def rule_wrap(ctx):
                 ctx.report('R15.1', 'open:%s%s:missing' % (comp, op), 'src/boundary.c reb_boundary_check (OPEN)', 'particles beyond the %s face in %s are not removed' % ('upper' if op == '>' else 'lower', comp))
     hdr = [render(x) if x and x.get('kind') else '' for x in loop['inner'][:4]]
     inc = hdr[3].replace(' ', '')
-    ascending = inc in ('i++', '++i')
-    comp_stmts = [e for e in walk(loop['inner'][-1]) if e.get('kind') == 'UnaryOperator' and e.get('opcode') == '--' and render(e['inner'][0]) == 'i']
+    ascending = inc in (lv_ + '++', '++' + lv_)
+    comp_stmts = [e for e in walk(loop['inner'][-1]) if e.get('kind') == 'UnaryOperator' and e.get('opcode') == '--' and render(e['inner'][0]) == lv_]
     n += 1
     where = 'src/boundary.c:%s reb_boundary_check (OPEN)' % line_of(loop)
     if ascending and len(comp_stmts) != 1:
